@@ -19,9 +19,15 @@ DEFAULT_SEED = 20260924
 
 # property -> engine, per-tier plan (batches, batch size) and engine params
 PROPS = {
-    "C01": {"engine": "cosim", "quick": (480, 40), "thorough": (6400, 40), "params": {}},
-    "C04": {"engine": "cosim", "quick": (480, 40), "thorough": (6400, 40), "params": {}},
-    "C06": {"engine": "cosim", "quick": (480, 40), "thorough": (6400, 40), "params": {}},
+    # "also": a second engine whose runs can yield violations of the same property
+    # (HISTSIM focus C04 = the stage pipeline with name requests interleaved and
+    # path probes, no edits, no restarts: DESIGN 5, C04 "+ HISTSIM states")
+    "C01": {"engine": "cosim", "quick": (480, 40), "thorough": (6400, 40), "params": {},
+            "also": ("histsim", {"focus": "C04"}, {"quick": (96, 60), "thorough": (960, 60)})},
+    "C04": {"engine": "cosim", "quick": (480, 40), "thorough": (6400, 40), "params": {},
+            "also": ("histsim", {"focus": "C04"}, {"quick": (96, 60), "thorough": (960, 60)})},
+    "C06": {"engine": "cosim", "quick": (480, 40), "thorough": (6400, 40), "params": {},
+            "also": ("histsim", {"focus": "C04"}, {"quick": (96, 60), "thorough": (960, 60)})},
     "C14": {"engine": "histsim", "quick": (384, 60), "thorough": (6400, 60), "params": {"focus": "C14"}},
     "C15": {"engine": "histsim", "quick": (384, 60), "thorough": (6400, 60), "params": {"focus": "C15"}},
     "C18": {"engine": "histsim", "quick": (384, 60), "thorough": (6400, 60), "params": {"focus": "C18"}},
@@ -47,6 +53,17 @@ RULES = {
                "PYTHONHASHSEED and seed-derived prehistory). distinct_nontrivial = jobs for which >=2 distinct "
                "set-iteration orders of the job's name set were observed across nodes and whose graph contains a "
                "loop or a branch",
+}
+
+# rare-condition probes with a floor (DESIGN 7.3): a probe stuck at zero is
+# printed as BLIND-PROBE and listed in evidence; it never changes an exit code
+PROBES = {
+    "cosim": ["stat:c06_branch_events", "stat:schedules_ended"],
+    "histsim": ["edit:pred=region", "edit:pred=branching", "edit:arcs-into-S>=2", "edit:pred=has-backedge",
+                "edit:S=empty", "restart@stage2", "restart@stage3", "name-on-depth>=2", "stat:probes"],
+    "envsim": ["stat:fault_raise-at-call", "stat:fault_raise-at-next", "stat:fault_raise-at-iter",
+               "stat:fault_raise-at-getattr", "stat:fault_raise-at-getitem", "stat:fault_empty-iterable",
+               "stat:fault_early-exhaustion", "stat:fault_budget"],
 }
 
 COMPONENTS = {
@@ -75,8 +92,7 @@ class Harness(Exception):
     pass
 
 
-def run_runs_engine(prop, tier, seed, t0):
-    engine, nb, bs, params = _plan(prop, tier, seed)
+def _run_engine(prop, engine, tier, seed, nb, bs, params):
     eng = _engine(engine)
     specs = fleet.plan_batches(engine, tier, seed, nb, bs, params)
     results = fleet.run_nodes(specs)
@@ -91,13 +107,36 @@ def run_runs_engine(prop, tier, seed, t0):
             row["_hash_seed"] = spec["hash_seed"]
             row["_batch"] = spec["batch"]
             rows.append(row)
-    cov = aggregate(prop, engine, rows)
     viol_rows = []
     for row in rows:
         for v in row.get("violations", []):
             if v["property"] == prop:
                 viol_rows.append((row, v))
-    return engine, eng, rows, cov, viol_rows
+    return eng, rows, viol_rows
+
+
+def run_runs_engine(prop, tier, seed, t0):
+    engine, nb, bs, params = _plan(prop, tier, seed)
+    eng, rows, viol_rows = _run_engine(prop, engine, tier, seed, nb, bs, params)
+    cov = aggregate(prop, engine, rows)
+    parts = [(engine, eng, viol_rows)]
+    also = PROPS[prop].get("also")
+    if also:
+        e2, p2, plan2 = also
+        nb2, bs2 = plan2[tier]
+        if os.environ.get("VERIF_BATCHES"):
+            nb2 = max(1, int(os.environ["VERIF_BATCHES"]) // 5)
+        eng2, rows2, viol2 = _run_engine(prop, e2, tier, seed, nb2, bs2, p2)
+        cov2 = aggregate(prop, e2, rows2)
+        cov["secondary_engine"] = {"engine": e2, "params": p2, "evaluations": cov2["evaluations"],
+                                   "distinct_nontrivial": cov2["distinct_nontrivial"],
+                                   "logical_time": cov2["logical_time"], "inconclusive": cov2["inconclusive"],
+                                   "distinct_states": cov2["distinct_states"], "rule": RULES[e2]}
+        cov["evaluations"] += cov2["evaluations"]
+        cov["distinct_nontrivial"] += cov2["distinct_nontrivial"]
+        cov["timeouts"] += cov2["timeouts"]
+        parts.append((e2, eng2, viol2))
+    return engine, eng, rows, cov, parts
 
 
 def aggregate(prop, engine, rows):
@@ -133,8 +172,21 @@ def aggregate(prop, engine, rows):
         if "case" in row and len(samples) < 3 and not row.get("violations"):
             samples.append({"seed": row["seed"], "case": _trim(row["case"]),
                             "log_digest": row.get("log_digest")})
+    faults = {k: int(v) for k, v in sorted(stats.items())
+              if k.startswith("fault_") or k in ("restarts_fired", "restart_dict", "restart_yaml", "restart2",
+                                                 "restart_failed")}
+    blind = []
+    for probe in PROBES.get(engine, []):
+        if probe.startswith("stat:"):
+            hit = stats.get(probe[5:], 0)
+        else:
+            hit = sum(reach.get(probe, {}).values())
+        if not hit:
+            blind.append(probe)
     cov = {
         "evaluations": len(rows),
+        "faults_fired": faults,
+        "blind_probes": blind,
         "distinct_nontrivial": len(nontriv),
         "distinct_cases": len(digests),
         "rule": RULES[engine],
@@ -157,7 +209,7 @@ def _trim(case, limit=4000):
     return {"trimmed": s[:limit] + "..."}
 
 
-def triage(prop, engine, eng, viol_rows, seed, tier, minimise=True):
+def triage(prop, engine, eng, viol_rows, seed, tier, minimise=True, tag=""):
     """Group violations, match known findings, minimise the rest, write replays.
     Returns (lines, n_new, n_known, replay_paths)."""
     known = findings.load()
@@ -217,7 +269,7 @@ def triage(prop, engine, eng, viol_rows, seed, tier, minimise=True):
                 reproduced = any(x["signature"] == v["signature"] for x in chk["result"]["violations"])
         # a minimised case may have turned into a known finding's shape: re-match
         facts2 = eng.where_facts(rcase, rviol) if hasattr(eng, "where_facts") else {}
-        path = os.path.join(REPLAY_DIR, "%s-%d-%d.json" % (prop, seed, n))
+        path = os.path.join(REPLAY_DIR, "%s-%d-%s%d.json" % (prop, seed, tag, n))
         doc = {"property": prop, "engine": engine, "verif_seed": seed, "tier": tier,
                "run_seed": row["seed"], "hash_seed": hs, "case": rcase,
                "violation": {k: rviol.get(k) for k in ("signature", "class", "where", "detail", "stage",
@@ -283,8 +335,13 @@ def main_check(prop, tier, seed):
             from sim import hashsim
             cov, lines, n_new, n_known = hashsim.check(prop, tier, seed)
         else:
-            engine, eng, rows, cov, viol_rows = run_runs_engine(prop, tier, seed, t0)
-            lines, n_new, n_known, _paths = triage(prop, engine, eng, viol_rows, seed, tier)
+            engine, eng, rows, cov, parts = run_runs_engine(prop, tier, seed, t0)
+            lines, n_new, n_known = [], 0, 0
+            for k, (e_name, e_mod, viol_rows) in enumerate(parts):
+                l2, nn, nk, _paths = triage(prop, e_name, e_mod, viol_rows, seed, tier, tag=("" if k == 0 else "b"))
+                lines += l2
+                n_new += nn
+                n_known += nk
             cov["violating_runs_known"] = n_known
             cov["violating_runs_new"] = n_new
     except Harness as h:
@@ -298,6 +355,8 @@ def main_check(prop, tier, seed):
     write_evidence(prop, tier, seed, cov, wall, n_new, ASSUME[engine])
     for ln in lines:
         print(ln)
+    for bp in cov.get("blind_probes", []):
+        print("BLIND-PROBE %s (never hit in this run)" % bp)
     tm = cov.get("timeouts", 0)
     print("%s tier=%s seed=%d runs=%d nontrivial=%d states=%d known=%d new=%d wall=%.1fs" % (
         prop, tier, seed, cov["evaluations"], cov["distinct_nontrivial"],
